@@ -39,6 +39,7 @@ THEOREMS = [
     "HedVerif.C13.accept_distinct",
     "HedVerif.C13.merge_conservative",
     "HedVerif.C13.merge_keeps_forms",
+    "HedVerif.C13.rooted_placed_under_root",
     "HedVerif.C13.refuse_clash",
 ]
 BUDGET = {"quick": 600, "thorough": 3000}
@@ -457,6 +458,11 @@ def synthetic_required(ctx, hed, from_string, HedSchemaGroup):
         ctx.notes.append("synthetic required tag never made a difference (generator too weak?)")
 
 
+def only_extra_not_unique(cg, ca):
+    """the group reports the repeated unique tag once more per case-colliding member, nothing else differs"""
+    return set(Counter(cg) - Counter(ca)) == {("TAG_NOT_UNIQUE", 1)} and not (Counter(ca) - Counter(cg))
+
+
 def case_collision(ctx, hed):
     """prefixes differing only in case: distinct keys of the group, but the unique/required matching folds case"""
     HedString, HedTag, load_schema_version, GroupValidator = hed
@@ -479,7 +485,7 @@ def case_collision(ctx, hed):
         ctx.disagree("uniqueIssues = check_multiple_unique_tags_exist (case-colliding prefixes)", {"items": items}, m, n)
     if cg != ca:
         ctx.violation("prefixed-in-group != unprefixed-alone", {"group": [list(x) for x in members], "prefix": "sc:", "items": items},
-                      {"group": cg, "alone": ca}, signature=SIG_CASE)
+                      {"group": cg, "alone": ca}, signature=SIG_CASE if only_extra_not_unique(cg, ca) else None)
 
 
 def capitalisation_probe(ctx, hed):
@@ -804,7 +810,7 @@ def replay(ctx, rec):
         ca = codes_of(HedString, render(case["items"], ""), alone)
         print("text:", render(case["items"], p), "\ngroup:", cg, "\nalone:", ca)
         if cg != ca:
-            sig = SIG_CASE if len({q.casefold() for q, _ in members}) < len(members) else (
+            sig = SIG_CASE if len({q.casefold() for q, _ in members}) < len(members) and only_extra_not_unique(cg, ca) else (
                 SIG_CAP if p and explained_by_capitalisation(HedString, render(case["items"], p), group, cg, ca) else None)
             ctx.violation("prefixed-in-group != unprefixed-alone", case, {"group": cg, "alone": ca}, signature=sig)
         return
